@@ -38,7 +38,7 @@ const (
 )
 
 func checkC09(c *core.Ctx) []core.Floor {
-	c.Rule = "inputs to the session's tokenise+parse path: (a) every token sequence up to a length bound over the full vocabulary (all keywords, operators, punctuation, identifier, quoted identifier, integer, over-long integer, float, string, raw string, lone quotes) plus longer sequences over a reduced vocabulary; (b) every byte prefix and every token prefix of generated valid statements; (c) token deletions / duplications / swaps of valid statements; (d) quote pathology; (e) numeric pathology in every integer position; (e2) 35 awkward tokens (digit separators, hex/binary/float forms, quoted and unterminated strings, two-character operators, multi-byte and invalid UTF-8, comment openers) at every alignment around the multiples of the scanner's 1024-byte buffer, followed by more text and at the end of the input; (f) random bytes incl. NUL and invalid UTF-8; (g) deep nesting (10^5 chained OR/AND terms, long lists). Monitors: recover() (panic), logical step budgets on the scanner (64 x (len+16) characters read) and on the token list (4096 x (len+16) reads) enforced from hooks, independent of machine load, allocation bound per batch; a dead driver names its input. Distinct = input text; non-trivial = the input is not a valid statement (the error paths are what is being exercised)."
+	c.Rule = "inputs to the session's tokenise+parse path: (a) every token sequence up to a length bound over the full vocabulary (all keywords, operators, punctuation, identifier, quoted identifier, integer, over-long integer, float, string, raw string, lone quotes) plus longer sequences over a reduced vocabulary; (b) every byte prefix and every token prefix of generated valid statements; (c) token deletions / duplications / swaps of valid statements; (d) quote pathology; (e) numeric pathology in every integer position; (e2) 35 awkward tokens (digit separators, hex/binary/float forms, quoted and unterminated strings, two-character operators, multi-byte and invalid UTF-8, comment openers) at every alignment around the multiples of the scanner's 1024-byte buffer, followed by more text and at the end of the input; (e3) identifiers of 1-12 bytes containing letters whose case folding changes their UTF-8 length or has no single-letter result (ɐ ɫ ȿ ⱥ ß ŉ ﬁ K İ ...); (f) random bytes incl. NUL and invalid UTF-8; (g) deep nesting (10^5 chained OR/AND terms, long lists). Monitors: recover() (panic), logical step budgets on the scanner (64 x (len+16) characters read) and on the token list (4096 x (len+16) reads) enforced from hooks, independent of machine load, allocation bound per batch; a dead driver names its input. Distinct = input text; non-trivial = the input is not a valid statement (the error paths are what is being exercised)."
 	c.Assume = []string{"step budgets are orders of magnitude above what the parser uses on valid input (the observed maximum ratio is reported)"}
 	drv := mustDriver(c, false)
 	quick := core.Quick(c)
@@ -231,6 +231,32 @@ func checkC09(c *core.Ctx) []core.Floor {
 		}
 	}
 	add("buffer_boundary", bnd)
+	// (e3) identifiers of 1-12 bytes made of letters whose upper-case or
+	// lower-case form has another length in UTF-8, is another letter of the
+	// same case, or does not exist: anything that folds case into a buffer
+	// sized from the original text meets its boundary here
+	var uc []string
+	special := []string{"ɐ", "ɑ", "ɒ", "ɜ", "ɡ", "ɥ", "ɦ", "ɪ", "ɫ", "ɬ", "ɱ", "ɽ", "ʇ", "ʝ", "ʞ", "ȿ", "ɀ", "ⱥ", "ⱦ", "ı", "ſ", "ß", "ŉ", "ǰ", "ΐ", "ΰ", "և", "ẖ", "ﬁ", "ﬃ", "\u212a", "\u212b", "İ", "ǅ", "ᾳ", "ꭰ", "Ⱥ", "Ⱦ", "ẞ", "σ", "ς"}
+	for _, sp := range special {
+		for total := 1; total <= 12; total++ {
+			for _, lead := range []bool{true, false} {
+				fill := total - len(sp)
+				if fill < 0 {
+					continue
+				}
+				id := strings.Repeat("x", fill) + sp
+				if lead {
+					id = sp + strings.Repeat("x", fill)
+				}
+				uc = append(uc, "SELECT "+id+" FROM t", "SELECT a FROM "+id+" WHERE "+id+" = 1")
+				if fill >= len(sp) && total <= 9 {
+					two := sp + strings.Repeat("x", fill-len(sp)) + sp
+					uc = append(uc, "CREATE TABLE "+two+" (a int)", "INSERT INTO t ("+two+") VALUES (1)")
+				}
+			}
+		}
+	}
+	add("unicode_case", uc)
 	// (f) random bytes
 	var rnd []string
 	nr := 3000
@@ -281,7 +307,7 @@ func checkC09(c *core.Ctx) []core.Floor {
 	c.Sample(6, map[string]interface{}{"family": "prefixes", "example": pref[len(pref)/2]})
 	c.Sample(6, map[string]interface{}{"family": "mutations", "example": mut[len(mut)/2]})
 	fl := []core.Floor{{Key: "inputs", Min: 50000}}
-	for _, f := range []string{"token_sequences", "valid_statements", "prefixes", "mutations", "clause_sequences", "quotes", "numerics", "buffer_boundary", "random_bytes", "deep"} {
+	for _, f := range []string{"token_sequences", "valid_statements", "prefixes", "mutations", "clause_sequences", "quotes", "numerics", "buffer_boundary", "unicode_case", "random_bytes", "deep"} {
 		fl = append(fl, core.Floor{Key: "family_" + f, Min: 1})
 	}
 	fl = append(fl, core.Floor{Key: "outcome_statement", Min: 1000}, core.Floor{Key: "outcome_error", Min: 1000})
